@@ -270,7 +270,7 @@ pub fn cfg_for(tier: Tier) -> PicCfg {
 pub fn run(ctx: &Ctx) -> i32 {
     let cfg = cfg_for(ctx.tier);
     let mut reports = vec![super::regression_suite(ctx)];
-    let (cases, len) = ctx.tier.pick((30_000u64, 12usize), (500_000u64, 40usize));
+    let (cases, len) = ctx.tier.pick((60_000u64, 12usize), (500_000u64, 40usize));
     reports.push(tape_suite(ctx, "reference_histories", cases, 12_000, &move |g| history_case(g, &cfg, len)));
     finish(
         ctx,
